@@ -940,6 +940,26 @@ def rule_threshold_interior(ctx, rule):
         ctx.unknown(rule, fi, rets[0].node, label, "no estimate is ever stored")
 
 
+def _fn_names(v, depth=0):
+    """names of the functions / methods applied anywhere inside a value (a form, a vector or tuple of forms)"""
+    if v is None or depth > 6:
+        return set()
+    if isinstance(v, Form):
+        out = {x[1].split(".")[-1] for x in v.atoms() if x[0] == "fn"} | {x[2] for x in v.atoms() if x[0] == "meth"}
+        for x in v.atoms():
+            for c in atom_children(x):
+                if not isinstance(c, Form):          # a vector / tuple receiver or argument: its elements are not atoms of the form
+                    out |= _fn_names(c, depth + 1)
+        return out
+    items = getattr(v, "items", None)
+    if isinstance(items, (list, tuple)):
+        out = set()
+        for c in items:
+            out |= _fn_names(c, depth + 1)
+        return out
+    return set()
+
+
 def rule_level_split(ctx, rule):
     """mu0, mu1 within 8 % of the levels for EVERY pattern with both symbols present: the first thing GET_EYE does is split the samples
     into an upper and a lower population around `vm`.  Taken as the mean of the two centres of a least-squares 2-means fit with random
@@ -976,8 +996,8 @@ def rule_level_split(ctx, rule):
     for a in fits:
         kw = dict(a[3])
         init = kw.get("init")
-        inames = ({x[1].split(".")[-1] for x in init.atoms() if x[0] == "fn"} | {x[2] for x in init.atoms() if x[0] == "meth"}) if isinstance(init, Form) else set()
-        seeded = isinstance(init, Form) and ({"min", "max"} <= inames or {"amin", "amax"} <= inames)
+        inames = _fn_names(init)
+        seeded = init is not None and ({"min", "max"} <= inames or {"amin", "amax"} <= inames)
         ctx.check(rule, seeded, fi, rets[0].node, label, "two clusters started at the minimum and the maximum of the record",
                   "the boundary is the mean of the centres of a 2-means fit with random starts (the global least-squares partition): with 3 ones in 4096 slots and sigma = 5 % of the eye the "
                   "optimum splits the noise cloud of the zero level in two (centres at -0.04 and +0.04) - GET_EYE returns mu0 = -0.039, mu1 = 0.041, threshold 0.001, all finite, nothing "
@@ -1007,8 +1027,18 @@ def rule_periodic_crossings(ctx, rule):
         if not timed:
             ctx.holds(rule, fi, rets[0].node, label, "no clustering over the time axis")
             continue
+        def _top_alternatives(v, depth=0):
+            a_ = v.single_atom() if isinstance(v, Form) else None
+            if a_ and a_[0] == "phi" and v == Form.atom(a_) and depth < 6:
+                for x_ in a_[2]:
+                    yield from _top_alternatives(x_, depth + 1)
+            else:
+                yield v
         for node, data in timed:
-            wrapped = any(a[0] == "fn" and a[1].split(".")[-1] in ("mod", "remainder", "fmod") and ts in repr(a[2][0]) for a in data.atoms()) if isinstance(data, Form) else False
+            # on EVERY path to the clustering: an image added under a condition (only when all crossings share a side of the trace) is
+            # missing exactly when a FEW transitions fall on the other parity - one phase slip in alternating data
+            wrapped = all(isinstance(alt, Form) and any(a[0] == "fn" and a[1].split(".")[-1] in ("mod", "remainder", "fmod") and ts in repr(a[2][0]) for a in alt.atoms())
+                          for alt in _top_alternatives(data)) if isinstance(data, Form) else False
             ctx.check(rule, wrapped or (k is not None and k < 2), fi, node, label, "a reduction of the time axis modulo the slot among the clustered instants",
                       f"the instants clustered by {src_of(node)[:50]} are samples of the raw {k}-slot axis only: transitions that all fall on slot boundaries of one parity (0011..., PPM slots 1001 1001) "
                       "populate one of the two crossing groups, both centres land on the same crossing, t_right - t_left = 0, the level window is empty and mu0 = mu1 = nan")
